@@ -42,8 +42,18 @@ pub enum Site {
     IdentityVerify,
     MlDsaFunctions,
     IpNodeId { v6: bool, field: u8, pos: u16 },
-    UpdateVerifier { mode: u8 },
-    UpdateFile { mode: u8 },
+    /// `prior`: 0 = the key is pinned once; otherwise the same key id was pinned before (another identity, or this
+    /// one with a closed validity window) and then pinned again with `add_key` - the later pin is the pinned key
+    UpdateVerifier {
+        mode: u8,
+        #[serde(default)]
+        prior: u8,
+    },
+    UpdateFile {
+        mode: u8,
+        #[serde(default)]
+        prior: u8,
+    },
     SingleAuth,
     DelegatedAuth { signer: u8, keys: u8 },
     ThresholdAuth { t: u8, n: u8, genuine: u8 },
@@ -276,7 +286,7 @@ fn run_case(c: &Case) -> Verdict {
                 go!(IPv4NodeID, ipv4_addr, Ipv4Addr::new(10, 1, (*pos >> 8) as u8, *pos as u8), Ipv4Addr::new(10, 2, (*pos >> 8) as u8, *pos as u8));
             }
         }
-        Site::UpdateVerifier { mode } | Site::UpdateFile { mode } => {
+        Site::UpdateVerifier { mode, prior } | Site::UpdateFile { mode, prior } => {
             let b64 = base64::engine::general_purpose::STANDARD;
             let mut key = PinnedKey::new("release-key", b64.encode(&vkey));
             let mut key_id = "release-key";
@@ -301,7 +311,37 @@ fn run_case(c: &Case) -> Verdict {
                 }
                 _ => {}
             }
-            let ver = SignatureVerifier::new(vec![key]);
+            let ver = if *prior == 0 {
+                SignatureVerifier::new(vec![key])
+            } else {
+                // an earlier pin under the same id, superseded by `key`
+                let mut old = match prior % 4 {
+                    0 => {
+                        let (p, _) = generate_ml_dsa_keypair().unwrap();
+                        PinnedKey::new("release-key", b64.encode(p.as_bytes()))
+                    }
+                    _ => PinnedKey::new("release-key", b64.encode(&keys.pk.as_bytes()[..])),
+                };
+                match prior % 4 {
+                    2 => {
+                        old.valid_from = 1;
+                        old.valid_until = now().saturating_sub(3600);
+                    }
+                    3 => old.valid_from = now() + 3600,
+                    _ => {}
+                }
+                let other = PinnedKey::new("another-key", old.public_key.clone());
+                let mut ver = if prior % 8 < 4 {
+                    SignatureVerifier::new(vec![old, other])
+                } else {
+                    let mut ver = SignatureVerifier::new(vec![other]);
+                    ver.add_key(old);
+                    ver
+                };
+                ver.add_key(key);
+                v.class("pinned_again_under_the_same_id");
+                ver
+            };
             let sig_b64 = b64.encode(&vsig);
             if let Site::UpdateVerifier { .. } = c.site {
                 let acc = ver.verify_signature(key_id, &vmsg, &sig_b64).unwrap_or(false);
@@ -431,7 +471,7 @@ fn id_kind() -> impl Strategy<Value = IdKind> {
 
 pub fn run(run: &Run) {
     run.assume("built with debug assertions off (checked at start-up): the real ML-DSA-65 path is exercised; sampled bit flips do not argue unforgeability");
-    run.set_rule("verify", "identity kind (generated / imported / from_seed / secure / derived path) × message 0..2048 bytes × tamper (one bit of message, signature or key; message extended/truncated; another identity's key) × call site (ml_dsa_*, NodeIdentity, IPv4/IPv6NodeID with each field altered, SignatureVerifier signature+file incl. unknown/not-yet-valid/expired pinned key and wrong checksum, Single/Delegated/Threshold/Composite WriteAuth); non-trivial = a tamper case or a non-primitive site; distinct by case hash");
+    run.set_rule("verify", "identity kind (generated / imported / from_seed / secure / derived path) × message 0..2048 bytes × tamper (one bit of message, signature or key; message extended/truncated; another identity's key) × call site (ml_dsa_*, NodeIdentity, IPv4/IPv6NodeID with each field altered, SignatureVerifier signature+file incl. unknown/not-yet-valid/expired pinned key, a key id pinned again with add_key (the later pin counts) and wrong checksum, Single/Delegated/Threshold/Composite WriteAuth); non-trivial = a tamper case or a non-primitive site; distinct by case hash");
     let sh = shards_for(run.tier);
     let make_case = || {
         let tamper = prop_oneof![
@@ -447,8 +487,8 @@ pub fn run(run: &Run) {
             4 => Just(Site::IdentityVerify),
             3 => Just(Site::MlDsaFunctions),
             3 => (any::<bool>(), 0u8..7, any::<u16>()).prop_map(|(v6, field, pos)| Site::IpNodeId { v6, field, pos }),
-            2 => (0u8..5).prop_map(|mode| Site::UpdateVerifier { mode }),
-            2 => (0u8..5).prop_map(|mode| Site::UpdateFile { mode }),
+            2 => (0u8..5, prop_oneof![2 => Just(0u8), 1 => 1u8..=8]).prop_map(|(mode, prior)| Site::UpdateVerifier { mode, prior }),
+            2 => (0u8..5, prop_oneof![2 => Just(0u8), 1 => 1u8..=8]).prop_map(|(mode, prior)| Site::UpdateFile { mode, prior }),
             2 => Just(Site::SingleAuth),
             2 => (any::<u8>(), any::<u8>()).prop_map(|(signer, keys)| Site::DelegatedAuth { signer, keys }),
             1 => (any::<u8>(), any::<u8>(), any::<u8>()).prop_map(|(t, n, genuine)| Site::ThresholdAuth { t, n, genuine }),
